@@ -21,7 +21,7 @@ IMPORTS = ("From CV Require Import Base.Cmp Base.QcLin Model.C16_Solve.\n"
            "From Coq Require Import QArith String. Open Scope string_scope.")
 RULE = ("integer least-squares problems (m,n<=5, cond(A^TA+shift)<=1e4) x shape(over/square/under) x shift(0/dyadic>0) x "
         "operator form(dense/sparse/callable) x start(zero/random): CGLS iterates 0..K and runs to the stopping rule "
-        "(residual clause, |x|*tol>=1 clause, maxit, right-hand side scaled by 2^-12 / 2^10); PCGLS x preconditioner(identity/diagonal/triangular/general) x "
+        "(residual clause, |x|*tol>=1 clause, maxit, right-hand side scaled by 2^-30 / 2^10); PCGLS x preconditioner(identity/diagonal/triangular/general) x "
         "(explicit inverse/spsolve) x shift; FISTA/ISTA x prox(L1,L1*strength,nonneg,box None/scalar/vector) x form x dyadic/float "
         "step below 1/L; projections and soft-thresholding on dyadic vectors incl. ties and negative gamma; LM one-unknown "
         "quadratic residuals (dense/sparse) + 2-unknown stationarity; SciPy wrappers per method. distinct = distinct "
@@ -271,7 +271,9 @@ def oracle_cgls(meta, x, k, maxit, tol):
         return None                      # not stopped by the residual clause: nothing is promised
     s0 = np.linalg.norm(ne_resid(meta["A"], meta["b"], meta["shift"], meta["x0"]))
     s = np.linalg.norm(ne_resid(meta["A"], meta["b"], meta["shift"], x))
-    if s > 1.001 * tol * s0 + 1e-12:
+    A_ = np.asarray(meta["A"], dtype=float)
+    floor = 1e-12 * (np.linalg.norm(A_.T @ np.asarray(meta["b"], dtype=float)) + np.linalg.norm(ne_resid(meta["A"], 0 * np.asarray(meta["b"], dtype=float), meta["shift"], meta["x0"])))
+    if s > 1.001 * tol * s0 + floor:      # floor: rounding level of evaluating the residual, relative to the scale of the data
         return "CGLS stopped after %d iterations with |A^T(b-Ax)-shift*x| = %.3e > tol*|s0| = %.3e (x=%s)" % (k, s, tol * s0, x)
     return None
 
@@ -814,7 +816,7 @@ def metas(ctx):
                 out.append(dict(me2, op="cgls_solve", stopcell=stopcell))
             # the stopping rule is RELATIVE to |s_0|: tiny and large right-hand sides (dyadic scaling keeps the data exact)
             if form in ("dense", "fun") or ctx.thorough:
-                for sc_name, sc in [("rhs*2^-12", 2.0 ** -12), ("rhs*2^10", 2.0 ** 10)]:
+                for sc_name, sc in [("rhs*2^-30", 2.0 ** -30), ("rhs*2^10", 2.0 ** 10)]:
                     me3 = gen_lsq_meta(rng, shape, shiftcell, "zero", form)
                     me3["b"] = [v * sc for v in me3["b"]]
                     me3.update(tol=1e-6, maxit=100, start="zero")
@@ -870,6 +872,10 @@ def metas(ctx):
             out.append(dict(me, op="fista_runs", K=ctx.n(6, 8), abstol=0.0))
             if form == "dense" and stepcell == "dyadic":
                 out.append(dict(me, op="fista_conv", maxit=200000, abstol=1e-8))
+                if pc in ("l1", "nonneg") and shape == "over":
+                    # abstol is an ABSOLUTE tolerance on |x_new - x_old|: a large right-hand side (|x| ~ 2^12) separates it from a relative one
+                    me4 = dict(me, b=[v * 2.0 ** 12 for v in me["b"]], x0=[0] * n, start="zero")
+                    out.append(dict(me4, op="fista_conv", maxit=400000, abstol=1e-6, proxcell=pc + "/rhs*2^12"))
     # abstol that fires early, maxit <= 1
     for adaptive in [True, False]:
         me = gen_lsq_meta(rng, "over", "0", "random", "dense")
